@@ -18,7 +18,7 @@ Functions modelled (line numbers of src/pyramid/traversal.py)
 * `traversalPath`         `traversal_path`                                                       (420-435)
 * `quoteBytes`/`quoteSegment`  `quote_path_segment` → `url_quote` → `urllib.parse.quote`           (539-579)
 * `joinPathTuple`         `_join_path_tuple`                                                     (748-750)
-* `traverser`             `ResourceTreeTraverser.__call__`                                       (595-704)
+* `traverser`             `ResourceTreeTraverser.__call__`                                       (595-700)
 * `traverseApi`           `traverse(resource, path)` incl. the `Request.blank` step of WebOb     (160-316)
 
 The caches (`lru_cache`, `_segment_cache`) are not modelled: the model is a function of its arguments, and
@@ -257,16 +257,20 @@ def requestPath (rq : Req) : Except Err (Text × List Seg) :=
     | none => .error .urlDecode
     | some p => .ok (if p = [] then ['/'] else p, [])
 
-/-- lines 628-704 of `__call__` once `path`, `subpath` and the decoded virtual-root header are known -/
+/-- lines 628-700 of `__call__` once `path`, `subpath` and the decoded virtual-root header are known:
+with a header `vpath_tuple = vroot_tuple + split_path_info(path)` and `vroot_idx = len(vroot_tuple) - 1`, without
+one `vpath_tuple = split_path_info(path)`, `vroot_tuple = ()`, `vroot_idx = -1` (the request path is normalised on
+its own; the two are joined as tuples, never as strings).  `if vpath_tuple:` guards the loop; on the empty tuple
+`walkLoop` returns the final `return` at once. -/
 def traverseText (root : Tree) (vroot : Option Text) (path : Text) (subpath : List Seg) : Result :=
-  let go (vrootTuple : List Seg) (vpath : Text) (vlen : Nat) : Result :=
-    let vt := if vpath = ['/'] then [] else splitPathInfo vpath
-    walkLoop vt vrootTuple subpath vlen vt 0 root []
   match vroot with
   | some vrootPath =>
     let vrootTuple := splitPathInfo vrootPath
-    go vrootTuple (vrootPath ++ path) vrootTuple.length
-  | none => go [] path 0
+    let vpathTuple := vrootTuple ++ splitPathInfo path
+    walkLoop vpathTuple vrootTuple subpath vrootTuple.length vpathTuple 0 root []
+  | none =>
+    let vpathTuple := splitPathInfo path
+    walkLoop vpathTuple [] subpath 0 vpathTuple 0 root []
 
 /-- `ResourceTreeTraverser(root)(request)` -/
 def traverser (root : Tree) (rq : Req) : Except Err Result :=
